@@ -49,6 +49,17 @@ impl Op {
     }
 }
 
+pub fn hash_bytes(b: &[u8]) -> u64 {
+    let mut h = 0x9e37_79b9_7f4a_7c15u64 ^ (b.len() as u64);
+    for c in b.chunks(8) {
+        let mut w = [0u8; 8];
+        w[..c.len()].copy_from_slice(c);
+        h = (h ^ u64::from_le_bytes(w)).wrapping_mul(0xff51_afd7_ed55_8ccd);
+        h ^= h >> 29;
+    }
+    h
+}
+
 #[derive(Clone, Debug)]
 pub struct Violation {
     /// properties this invariant decides
@@ -207,6 +218,20 @@ pub fn run_generated<S: Scenario>(s: &S, mix: &str, seed: u64, max_ops: usize, s
     }
     let digest = s.log_digest(&w) ^ (ops.len() as u64).wrapping_mul(0x2545_f491_4f6c_dd1d);
     RunOutcome { setup, ops, violation, digest }
+}
+
+/// execute an explicit trace and return (violation, event-log digest)
+pub fn run_trace_digest<S: Scenario>(s: &S, setup: &J, ops: &[Op], stats: &mut Stats) -> (Option<(Violation, usize)>, u64) {
+    let mut w = s.new_world(setup);
+    for (i, op) in ops.iter().enumerate() {
+        if let Step::Fail(v) = s.step(&mut w, op, stats) {
+            return (Some((v, i)), s.log_digest(&w));
+        }
+    }
+    if let Step::Fail(v) = s.finish(&mut w, stats) {
+        return (Some((v, ops.len())), s.log_digest(&w));
+    }
+    (None, s.log_digest(&w))
 }
 
 pub fn run_trace<S: Scenario>(s: &S, setup: &J, ops: &[Op], stats: &mut Stats) -> Option<(Violation, usize)> {
@@ -393,7 +418,7 @@ pub fn run_batch<S: Scenario>(s: &S, cfg: &BatchCfg) -> BatchResult {
                         res.timed_out = true;
                         break;
                     }
-                    let seed = run_seed(cfg.seed, s.name(), r);
+                    let seed = run_seed(cfg.seed, s.name().split('@').next().unwrap(), r);
                     let out = run_generated(s, &cfg.mix, seed, cfg.max_ops, &mut res.stats);
                     res.runs += 1;
                     res.ops += out.ops.len() as u64;
